@@ -171,6 +171,8 @@ def eval(self, node):  # noqa: A001
                 parts.append(self.format_value(val, v.conversion, spec))
         if all(isinstance(p, str) for p in parts):
             return "".join(parts)
+        if len(parts) == 1 and type(parts[0]).__name__ == "NumStr":
+            return parts[0]
         if any(isinstance(p, Sym) and p.ty == "int" for p in parts) and all(
                 isinstance(p, str) or (isinstance(p, Sym) and p.ty in ("int", "str")) for p in parts):
             from .prims import StrParts
@@ -548,9 +550,13 @@ def values_identical(self, a, b):
     if isinstance(a, (PObj, PList, PDict, PSet, FuncVal, ClassInfo, BuiltinClass, Opaque, Builtin)) or \
             isinstance(b, (PObj, PList, PDict, PSet, FuncVal, ClassInfo, BuiltinClass, Opaque, Builtin)):
         if isinstance(a, PObj) and isinstance(b, Sym):
-            return self.wrap(self.to_z3(a) == b.t, "bool")
+            if isinstance(b.ty, tuple) and b.ty[0] == "ref":
+                return self.wrap(self.to_z3(a) == b.t, "bool")
+            return False
         if isinstance(b, PObj) and isinstance(a, Sym):
-            return self.wrap(self.to_z3(b) == a.t, "bool")
+            if isinstance(a.ty, tuple) and a.ty[0] == "ref":
+                return self.wrap(self.to_z3(b) == a.t, "bool")
+            return False
         return a is b
     if isinstance(a, BoundMethod) and isinstance(b, BoundMethod):
         return a.self_val is b.self_val and a.func is b.func
@@ -991,6 +997,12 @@ def format_value(self, val, conversion, spec):
         return self.fresh("clsrepr", "str")
     if isinstance(val, Sym) and val.ty in ("str", "int") and not spec and conversion in (-1, None):
         return val
+    if isinstance(val, Sym) and val.ty == "int" and isinstance(spec, str) and conversion in (-1, None):
+        import re as _re
+        m = _re.fullmatch(r"0(\d+)([bXx])", spec)
+        if m:
+            from .values import NumStr
+            return NumStr(val, int(m.group(1)), 2 if m.group(2) == "b" else 16)
     return self.fresh("fstr", "str")
 
 
@@ -1307,7 +1319,10 @@ def isinstance_check(self, v, cls):
         return any(self.isinstance_check(v, c) for c in cls.items)
     if isinstance(cls, ClassInfo):
         if isinstance(v, PObj):
-            return self.is_subclass(v.cls, cls)
+            if self.is_subclass(v.cls, cls):
+                return True
+            # a model class stands for the external class it replaces
+            return cls is v.cls
         if isinstance(v, NT):
             return self.is_subclass(v.cls, cls)
         if isinstance(v, Sym) and isinstance(v.ty, tuple) and v.ty[0] == "ref":
@@ -1316,6 +1331,10 @@ def isinstance_check(self, v, cls):
     if isinstance(cls, BuiltinClass):
         n = cls.name
         if isinstance(v, PObj):
+            if isinstance(v.cls, ClassInfo):
+                found, names, _ = self.class_attr_raw(v.cls, "_isinstance")
+                if found and n in names:
+                    return True
             return cls in self.mro(v.cls) or n == "object"
         if n == "object":
             return True
